@@ -35,11 +35,13 @@ CLAIMED = {
                 'on removed-piece effects, white/black arms are colour mirrors, and the from-scratch builders reset every accumulator '
                 'before accumulating and write every field; (3) incremental and from-scratch hashing use the same key tables and index '
                 'shapes; (4) UndoInfo save-before-write and restore-on-every-path, move counters symmetric; (5) serialize/deSerialize '
-                'layouts inverse; (7) make/unmake pairing on every path at all 31 probe sites. Right level: "after any history the '
+                'layouts inverse and every undo / packed field wide enough for the attribute it holds; (7) make/unmake pairing on every path at all 31 probe sites; '
+                '(8) en-passant mask tables and guard; (9) every fresh en-passant store is normalised as readFEN does. Three genuine violations on the pinned '
+                'tree are listed in known_findings.json (compact form: 8-bit clock, 16-bit move number; makeMove keeps an illegal en-passant square). Right level: "after any history the '
                 'incremental value equals the recomputed one" holds iff every mutator updates every derived attribute consistently - a '
                 'finite set of structural obligations that cover every history, where a random walk samples.',
         'design_ref': 'DESIGN.md section 2, C02',
-        'note': TB + ' Does not decide value-level equalities (hash equality of rule-equal positions, FEN round trip of counters).',
+        'note': TB + ' Does not decide value-level equalities (hash equality of rule-equal positions beyond the en-passant normal form).',
         'technique': 'custom static analysis: write-set/effect analysis, colour-mirror and sibling agreement on CFG regions, dominance-based save/restore and pairing, constant evaluation over the material polytope',
     },
     'C03': {
